@@ -395,6 +395,29 @@ contract(
     canaries={"empty": "len(result) == 0"},
 )
 
+# The same contract in two halves for callers that need only one of them: z3's string order (`str.<=`) is slow as a HYPOTHESIS of goals that do not
+# concern the order (every obligation of `_write#classdefs` fell through to cvc5 with the four `increasing` facts on its path).
+_SGC = "ufo2ft.featureWriters.gdefFeatureWriter:GdefFeatureWriter._sortedGlyphClass"
+_full = CONTRACTS[_SGC + "#c17_Writer"]
+# (`every-exported-member` by POSITION of the glyph order: provable without the key-position fact of the dict, which callers do not want on their paths)
+contract(_SGC, name="c17_members", props=["C18"], params=dict(_full.params), returns=_full.returns, globals={"sorted": SORTED_ELEMS}, dict_key_positions=False,
+         ensures={"only-exported-members": _full.ensures["only-exported-members"],
+                  "every-exported-member": f"all(implies({_K}[a] in glyphNames, {_K}[a] in result) for a in range(len({_K})))"},
+         canaries={"empty": "len(result) == 0"})
+contract(_SGC, name="c17_order", props=["C18"], params=dict(_full.params), returns=_full.returns, globals={"sorted": SORTED_ORDER}, dict_key_positions=False,
+         ensures={"increasing": _full.ensures["increasing"]}, canaries={"empty": "len(result) == 0"})
+
 from . import c18 as _c18  # noqa: E402,F401  (defines the class c17_Writer's GDEF vocabulary; imported late: c18 does not depend on this file)
 
-CLASSES["c17_Writer"].methods["_sortedGlyphClass"] = "ufo2ft.featureWriters.gdefFeatureWriter:GdefFeatureWriter._sortedGlyphClass#c17_Writer"
+
+
+def _sgc_dispatch(ex, st, recv, args, kwargs, node):
+    """glue, not a model: `self._sortedGlyphClass(..)` on a c17_Writer goes to the CONTRACT of the real function (variant #c17_Writer, or the half of it that
+    the calling contract selects with `calls=`; the engine applies `calls=` only to methods it resolves through a `repo=` class, c17_Writer has none)"""
+    key = _SGC + "#c17_Writer"
+    key = ex.c.calls.get(key, key)
+    ex.assumptions_used.discard("c17_Writer._sortedGlyphClass")  # (a proved contract, not an assumption)
+    return ex.call_contract(CONTRACTS[key], [recv] + list(args), kwargs, st, node, implicit=1)
+
+
+CLASSES["c17_Writer"].methods["_sortedGlyphClass"] = _sgc_dispatch
